@@ -593,9 +593,9 @@ VERIFY_FAIL_PATTERNS = [
 ]
 
 
-def run_verus(path, rlimit=None, extra=()):
+def run_verus(path, rlimit=None, extra=(), multiple_errors=10):
     cmd = ['verus', path, '--output-json', '--time-expanded', '--error-format=json', '--triggers-mode', 'silent',
-           '--multiple-errors', '10']
+           '--multiple-errors', str(multiple_errors)]
     if rlimit:
         cmd += ['--rlimit', str(rlimit)]
     cmd += list(extra)
